@@ -882,6 +882,8 @@ def small_rewrites(t):
                 return ("call", ("glob", "numpy.sum"), (("bin", "*", t[2][0], t[2][1]),), ())
             if n == "builtins.getattr" and len(t[2]) == 2 and is_const(t[2][1]) and isinstance(t[2][1][2], str):
                 return ("attr", t[2][0], t[2][1][2])
+            if n == "builtins.len" and len(t[2]) == 1 and not t[3] and is_const(strip(t[2][0])) and isinstance(strip(t[2][0])[2], (str, tuple)):
+                return const(len(strip(t[2][0])[2]))
             if n == "operator.itemgetter" and len(t[2]) == 1 and not t[3] and is_const(strip(t[2][0])):
                 # operator.itemgetter(k) == lambda x: x[k]
                 lamid = ("#itemgetter", repr(strip(t[2][0])[2]))
@@ -969,6 +971,8 @@ def small_rewrites(t):
         return t
     if h == "item":
         b = strip(t[1])
+        if is_const(b) and isinstance(b[2], (str, tuple)) and isinstance(t[2], int) and t[2] < len(b[2]):
+            return const(b[2][t[2]])        # unpacking a constant string / tuple
         if head(b) == "ite":
             return ("ite", b[1], small_rewrites(("item", b[2], t[2])), small_rewrites(("item", b[3], t[2])))
         if head(b) == "tuple" and isinstance(t[2], int) and t[2] < len(b[1]):
@@ -988,6 +992,17 @@ def small_rewrites(t):
         return subst(v, {("item", ce, 1): ("sub", d, t[2])})
     if h == "sub":
         b, k = strip(t[1]), strip(t[2])
+        if is_const(b) and isinstance(b[2], str):
+            # constant strings: "CDR1A"[3:] , "CDR1A"[-1]
+            if is_const(k) and isinstance(k[2], int) and not isinstance(k[2], bool) and -len(b[2]) <= k[2] < len(b[2]):
+                return const(b[2][k[2]])
+            if head(k) == "slice" and all(is_const(strip(z)) and (strip(z)[2] is None or (isinstance(strip(z)[2], int) and not isinstance(strip(z)[2], bool))) for z in k[1:4]):
+                return const(b[2][slice(strip(k[1])[2], strip(k[2])[2], strip(k[3])[2])])
+        if head(b) == "dict" and b[1] and head(k) == "glob" and all(head(strip(kk)) == "glob" for kk, _ in b[1]):
+            # table keyed by enumeration members / module constants: exact key match
+            for kk, vv in b[1]:
+                if strip(kk) == k:
+                    return vv
         if head(b) == "tuple" and is_const(k) and isinstance(k[2], int) and -len(b[1]) <= k[2] < len(b[1]):
             return b[1][k[2]]
         if head(b) == "ite" and is_const(k):
